@@ -133,6 +133,10 @@ private:
    */
   void loadEdgeDest(std::ifstream& graphFile, uint64_t edgeStart,
                     uint64_t numEdgesToLoad, uint64_t numGlobalNodes) {
+    // save edge offset of this graph for later use; needed even if this part
+    // holds no edges: edgeBegin() of the first local node returns it
+    edgeOffset = edgeStart;
+
     if (numEdgesToLoad == 0) {
       return;
     }
@@ -159,8 +163,6 @@ private:
     }
 
     assert(numBytesToLoad == 0);
-    // save edge offset of this graph for later use
-    edgeOffset = edgeStart;
   }
 
   /**
